@@ -525,3 +525,16 @@ func TestC07(t *testing.T) {
 	lunarCtor.Rapid(ev.Share(ev.Pick(160, 1600)), func(t *rapid.T) lunarYearCase { return lunarYearCase{gen.Year(t, 1, 9998)} })
 	chains.Rapid(ev.Share(ev.Pick(8000, 200000)), genChain)
 }
+
+// native fuzz target (thorough tier, additive): civil constructor acceptance on arbitrary integer tuples
+func FuzzNewSolar(f *testing.F) {
+	for _, x := range [][6]int{{1582, 10, 4, 0, 0, 0}, {1582, 10, 5, 0, 0, 0}, {1582, 10, 14, 23, 59, 59}, {1582, 10, 15, 0, 0, 0}, {2000, 2, 29, 0, 0, 0}, {1900, 2, 29, 0, 0, 0}, {1500, 2, 29, 0, 0, 0}, {2023, 13, 1, 0, 0, 0}, {2023, 4, 31, 24, 60, 60}, {1, 1, 1, -1, -1, -1}, {9998, 12, 31, 23, 59, 59}} {
+		f.Add(x[0], x[1], x[2], x[3], x[4], x[5])
+	}
+	f.Fuzz(func(t *testing.T, y, m, d, h, mi, s int) {
+		if y < 1 || y > 9999 {
+			return
+		}
+		ev.FuzzCheck(t, civilCtor, civCase{y, m, d, h, mi, s})
+	})
+}
